@@ -10,6 +10,7 @@ import z3
 
 from .vals import *  # noqa
 from .core import *  # noqa
+from .core import has_quantifier
 from .world import World, Contract, Ctx, Exec
 from . import source as S
 from . import builtins as _b  # noqa: F401  (registers builtins)
@@ -275,36 +276,43 @@ def discharge(world: World, ex: Exec, res: FnResult, use_cvc5=True, params_by_pa
             if z3.is_true(o.formula):
                 n_trivial += 1
                 continue
+            quick = min(Z3_TIMEOUT_MS, 3000)
+            has_q = len(ground) - 131 != len(axioms) or any(has_quantifier(p) for p in o.pc) or has_quantifier(o.formula)
             # 1. ground query (quantified axioms dropped): unsat here is unsat with them too
-            r1, s1 = _check_z3(ground, o.pc, o.formula, Z3_TIMEOUT_MS)
+            r1, s1 = _check_z3(ground, o.pc, o.formula, quick)
             if r1 == z3.unsat:
                 continue
             if r1 == z3.sat:
                 # prefer a counter-model with small integers (inside the ground pow2 table)
                 small = [z3.And(t >= -128, t <= 128) for t in _int_leaves(o.meta.get("params") or {})]
                 if small:
-                    rb, sb = _check_z3(ground + small, o.pc, o.formula, 5000)
+                    rb, sb = _check_z3(ground + small, o.pc, o.formula, quick)
                     if rb == z3.sat:
                         s1 = sb
-            # 2. full query
-            if len(ground) - 131 != len(axioms):
-                r, s = _check_z3(axioms, o.pc, o.formula, Z3_TIMEOUT_MS if r1 != z3.sat else 8000)
-            else:
-                r, s = r1, s1
+            # 2. full query, short budget
+            r, s = _check_z3(axioms, o.pc, o.formula, quick) if len(ground) - 131 != len(axioms) else (r1, s1)
             if r == z3.unsat:
                 continue
-            if r == z3.sat or r1 == z3.sat:
+            if r == z3.sat or (r1 == z3.sat and not has_q):
                 status = "refuted"
                 model_info = {"model": (s.model() if r == z3.sat else s1.model()), "obl": o, "candidate_only": r != z3.sat}
                 note = o.note
                 break
+            # 3. cvc5 on the full query (good at nonlinear integer arithmetic and strings)
             r2 = _check_cvc5(s, CVC5_TIMEOUT_S) if use_cvc5 else "unknown"
             if r2 == "unsat":
                 backend = "cvc5"
                 continue
-            if r2 == "sat":
-                status, backend, note = "refuted", "cvc5", o.note
-                model_info = {"model": None, "obl": o}
+            # 4. z3 with the full budget
+            r3, s3 = _check_z3(axioms, o.pc, o.formula, Z3_TIMEOUT_MS)
+            if r3 == z3.unsat:
+                continue
+            if r3 == z3.sat or r1 == z3.sat or r2 == "sat":
+                status = "refuted"
+                m = s3.model() if r3 == z3.sat else (s1.model() if r1 == z3.sat else None)
+                model_info = {"model": m, "obl": o, "candidate_only": r3 != z3.sat}
+                backend = "cvc5" if (r2 == "sat" and m is None) else "z3"
+                note = o.note
                 break
             status = "unknown"
             note = f"z3: {s.reason_unknown()}; cvc5: {r2}; {o.note}"
